@@ -267,7 +267,7 @@ func (g *progGen) coll(f focus, depth int, top bool) (string, focus) {
 		}
 		return p, nf
 	}
-	switch g.r.n(16) {
+	switch g.r.n(17) {
 	case 0, 1, 2:
 		p, nf := g.path(f, 4)
 		if top && f.msg != nil && g.r.p(0.7) {
@@ -350,6 +350,19 @@ func (g *progGen) coll(f focus, depth int, top bool) (string, focus) {
 			return fmt.Sprintf("(%s as %s)", b, t), bf
 		}
 		return fmt.Sprintf("%s.where($this is %s)", wrapIfOp(b), t), bf
+	case 15:
+		a, af := g.coll(f, depth-1, top)
+		b, _ := g.coll(f, depth-1, top)
+		switch g.r.n(4) {
+		case 0:
+			return fmt.Sprintf("%s | %s", wrapIfOp(a), wrapIfOp(b)), af
+		case 1:
+			return fmt.Sprintf("%s.union(%s)", wrapIfOp(a), b), af
+		case 2:
+			return fmt.Sprintf("%s.combine(%s)", wrapIfOp(a), b), af
+		default:
+			return fmt.Sprintf("%s.%s", wrapIfOp(a), pick(g.r, []string{"single()", "repeat(children())", "repeat($this)", "ofType(string)", "ofType(HumanName)", "ofType(Quantity)", "trace('t')", "toChars()"})), focus{nil, kUnknown, true}
+		}
 	case 14:
 		// a scalar as a collection
 		k := pick(g.r, []int{kStr, kInt, kDec, kBool, kDate, kDateTime, kTime, kQty})
